@@ -153,7 +153,7 @@ class G:
     def text_with_refs(self, tag="t"):
         if self.names and self.P.get("p_refs_only", 0) and self.p("p_refs_only"):
             # nothing but references, back to back
-            return "".join("${%s}" % self.pick(self.names) for _ in range(self.integer(1, 3)))
+            return self.pick(["", "", " ", "  "]).join("${%s}" % self.pick(self.names) for _ in range(self.integer(1, 3)))
         s = self.text(tag)
         if self.names and self.p("p_text_ref", 0.25):
             k = self.integer(1, 2)
@@ -484,7 +484,7 @@ class G:
     def trigger_question(self, inside_repeat):
         """a question whose calculation is fired by another question's value change"""
         src = self.pick(self.visible)
-        base = self.pick(["text", "integer", "calculate", "dateTime", "background-geopoint"])
+        base = self.pick(["text", "integer", "calculate", "dateTime", "background-geopoint", "geopoint", "decimal", "date", "geotrace"])
         nm = self.name()
         c = {"type": base, "name": nm, "trigger": "${%s}" % src}
         if base != "background-geopoint":
